@@ -132,7 +132,13 @@ def step (s : St) (toks : List String) : Option (St × String × String) :=
           match copyBuffer (Hs d.alg) d.v r with
           | .ok b => ({ s with blobs := (d.digTok, b) :: s.blobs }, .ok (), "1", "ok:" ++ showBytes b)
           | .error e => (s, .error e, "0", "err")
-      let tail := if s.kind == "oci" || s.kind == "ocistore" then s!" blobs={s'.blobs.length}" else ""
+      -- file store: the plain descriptor (no title) goes through digestToPath only
+      let plainOf (b : CMap String) : String :=
+        match b.get d.digTok with
+        | some x => s!" pexists=1 pfetch=ok:{showBytes x}"
+        | none => " pexists=0 pfetch=err"
+      let tail := if s.kind == "oci" || s.kind == "ocistore" then s!" blobs={s'.blobs.length}"
+                  else if s.kind == "file" then plainOf s'.blobs else ""
       let m := s!"{showUnit res} exists={ex} fetch={fetch}{tail}"
       -- spec: decided by the property where it has an opinion
       let already := match s.kind with
@@ -144,12 +150,14 @@ def step (s : St) (toks : List String) : Option (St × String × String) :=
         if already || oversize then m     -- refusal of present/oversize content: C06's business; model decides
         else match specExact d r with
           | some b =>
-            let n := if s.kind == "oci" || s.kind == "ocistore" then s!" blobs={s.blobs.length + 1}" else ""
+            let n := if s.kind == "oci" || s.kind == "ocistore" then s!" blobs={s.blobs.length + 1}"
+                     else if s.kind == "file" then s!" pexists=1 pfetch=ok:{showBytes b}" else ""
             s!"ok exists=1 fetch=ok:{showBytes b}{n}"
           | none =>
             if specPrefixOk d r then "*"
             else
-              let n := if s.kind == "oci" || s.kind == "ocistore" then s!" blobs={s.blobs.length}" else ""
+              let n := if s.kind == "oci" || s.kind == "ocistore" then s!" blobs={s.blobs.length}"
+                       else if s.kind == "file" then plainOf s.blobs else ""   -- a failed push changes nothing
               let ex0 := if (s.kind == "oci" || s.kind == "ocistore") && d.digBytes.isNone then "err" else "0"
               s!"err exists={ex0} fetch=err{n}"
       some (s', m, sp)
